@@ -76,8 +76,18 @@ impl<'a, W: AsyncWrite + Unpin> QueryCommandHandler<'a, W> {
         // Skip permission check if user_id is "bypass" (bypass_auth mode)
         if let Some(auth_mgr) = self.auth_manager {
             if let Some(uid) = self.user_id {
+                // The wildcard reads every defined event type: check each of them, not the literal "*"
+                let mut wildcard_types: Vec<String> = Vec::new();
+                if event_type == "*" {
+                    wildcard_types.extend(self.registry.read().await.get_all().keys().cloned());
+                    wildcard_types.sort();
+                }
                 // A sequence query reads every event type it links, not only the head
-                let mut event_types = vec![event_type];
+                let mut event_types: Vec<&String> = if event_type == "*" {
+                    wildcard_types.iter().collect()
+                } else {
+                    vec![event_type]
+                };
                 if let Some(sequence) = event_sequence {
                     event_types.extend(sequence.links.iter().map(|(_, target)| &target.event));
                 }
